@@ -46,6 +46,14 @@
 (* small (every NIS above 68, a large or tiny det(S), many stacked          *)
 (* measurements) must go through Bayes' rule.                              *)
 (*                                                                         *)
+(* Mixed regimes: some (not all) models may have likelihood 0, and with    *)
+(* prune_threshold 0 (pruning off, ThZero) a model whose probability is    *)
+(* exactly 0 stays in the list, so later updates start from priors that    *)
+(* are exactly 0 for some models.  Expected: Bayes' rule over the models   *)
+(* with positive mass, zero stays zero (ZeroStaysZero), fallback only when *)
+(* ALL masses are zero; the deviation "fallback on any zero mass"          *)
+(* (DeviationResetOnAnyZero) is refuted by TLC.                            *)
+(*                                                                         *)
 (* Property C18 = the invariants NonNegative, SumToOne, AtLeastOneModel,   *)
 (* BayesRule, ResetOnlyOnTrueUnderflow, ModeMixValid, MixtureMoments,      *)
 (* SpreadForm, HandBackIsSurvivor.                                         *)
@@ -313,6 +321,14 @@ ResetOnlyOnTrueUnderflow ==
      /\ (didReset <=> \A k \in DOMAIN lik : prior[k] * lik[k] = 0)
      /\ (pc \in {"reset", "normalised"} /\ ~didReset) =>
            \A c \in {2, 7, 1000} : Reduce([k \in DOMAIN lik |-> prior[k] * (c * lik[k])]) = Reduce(mass)
+\* NOT theorems (deviations TLC must refute; the driver runs them and requires a counterexample):
+\* "the fallback fires as soon as ANY model has lost its mass" - it must not: Bayes' rule runs over the
+\* models that still have mass, a zero stays zero, the fallback is for ALL masses zero only
+DeviationResetOnAnyZero ==
+  pc = "reset" => ((\E k \in DOMAIN lik : prior[k] * lik[k] = 0) => didReset)
+\* "a model whose probability is zero cannot come back" is a theorem only while SMM does not reset
+ZeroStaysZero ==
+  (pc \in {"reset", "normalised"} /\ ~didReset) => \A k \in DOMAIN lik : prior[k] * lik[k] = 0 => mass[k] = 0
 \* GPB1: new mode probabilities are a stochastic mix of the posterior: every entry between
 \* the smallest and largest mixing coefficient, total preserved
 ModeMixValid ==
@@ -349,7 +365,9 @@ HandBackIsSurvivor ==
 NotClosedEarly == (~closed) => handBack = NoHB
 
 (* side conditions of the binding *)
-TieFree == /\ (pc = "compiled" /\ cfg.kind = "smm") => \A k \in DOMAIN models : ~OnTie(mass, k, cfg.th)
+\* (threshold 0 = pruning switched off: "weight < 0" is false for every weight, also in floating point)
+TieFree == /\ (pc = "compiled" /\ cfg.kind = "smm" /\ cfg.th[1] # 0) =>
+                 \A k \in DOMAIN models : ~OnTie(mass, k, cfg.th)
            /\ pc = "pruned" => \A k \in DOMAIN models : ~OnTie(mass, k, cfg.pct)
 \* NOT a theorem of this module: AdaptiveFilter.prune as coded keeps the FIRST model when every
 \* model is below the threshold, even when that model has zero mass (then weights/sum = 0/0).
@@ -376,6 +394,7 @@ PctOne      == {<<91, 101>>}
 PctLow      == {<<34, 101>>}
 PctThree    == {<<34, 101>>, <<67, 101>>, <<91, 101>>}
 ThOne       == {<<26, 101>>}
+ThZero      == {<<0, 1>>}
 MixOne      == {<<3, 2>>}
 PctAll      == {<<34, 101>>, <<51, 101>>, <<67, 101>>, <<91, 101>>}
 MixQuick    == {<<3, 2>>, <<1, 2>>}
